@@ -28,7 +28,7 @@ RULE = ('one case = one simulated CLI run of a generated (ISA, program, options)
 ASSUMPTIONS = [
     'one CLI invocation = one process (modelled by one forked child with pristine interpreter state)',
     'SimFS models open/stat/listdir/mkdir and data faults at the Python I/O seam; real-kernel behaviours below that seam are not modelled',
-    'time spent inside C code (the re engine) is invisible to the step clock; exploration keeps identifiers <= 8 characters so no verdict depends on wall time (the one exception is the recorded regex blow-up finding, decided by a 20 s wall clock)',
+    'time spent inside C code (the re engine) is invisible to the step clock; exploration keeps identifiers <= 8 characters so no verdict depends on wall time (two exceptions, both decided by wall clock because no step event fires inside one C-level regex call: the recorded regex blow-up finding (20 s), and the malformed include directive with a long ordinary file name, which the unchanged tree rejects in milliseconds - a 20 s timeout there is confirmed by a second run with 40 s before it counts)',
     'a write-side fault that fired relaxes FC1 (a disk that fails during the write is not "assembling the program fails")',
 ]
 COMPONENTS = {'real': ['bespokeasm (whole package, from /repo/src)', 'click', 'yaml', 'json', 'intelhex', 'packaging', 're'],
